@@ -11,6 +11,22 @@
 // The certificate (annotations a, b, c, facts; specs E, L, T, pre; the constant B) is computed
 // here by dataflow and longest-path analysis; it is checked, not trusted, by
 // DC.Skel.SkelCheck.check_prog inside the Coq kernel.
+//
+// Files: load.go (type-checked package, call graph, primitives, token sets), build.go (Go AST ->
+// graph: evaluation order, short-circuit operators, switch/goto/labels, predicate inlining, the
+// progress-guard idiom, jump threading), analyze.go (callee preconditions, facts, longest paths,
+// blocking cycles), main.go (driver, output). selftest/run.sh runs the translator on a synthetic
+// parser whose functions are named after the expected verdict.
+//
+// Usage: skelgen -repo /repo -out /verif/coq/Gen -report /verif/build/skelgen_report.json
+//
+//	-v            print the blocking loops / call chains and the problems
+//	-why f        explain why function f may return without consuming a token
+//	-assume file  assumed_progress entries (none are needed for /repo; see the report)
+//
+// Exit status 0 when the two files were written (also when no certificate was found: then the
+// report has "certified": false and Properties/C02.v does not compile), 2 on a fatal error
+// (package does not type-check, entry function missing).
 package main
 
 import (
@@ -407,6 +423,9 @@ func main() {
 		if n, t, c := pk.astCounts(fi); n != g.builtNext || t != g.builtTick || c != g.builtCall {
 			pk.problem(fi.decl.Pos(), "structural mismatch in %s: source has %d nextToken / %d currentIs+peekIs / %d calls, translated %d / %d / %d",
 				fi.name, n, t, c, g.builtNext, g.builtTick, g.builtCall)
+		}
+		if nl := len(pk.loopPositions(fi)); nl != g.builtLoops {
+			pk.problem(fi.decl.Pos(), "structural mismatch in %s: source has %d loops, translated %d", fi.name, nl, g.builtLoops)
 		}
 	}
 	pk.problems = dedupe(pk.problems)
